@@ -1,6 +1,8 @@
 #ifndef PV_SHIM_STDLIB_H
 #define PV_SHIM_STDLIB_H
 #include <stddef.h>
-void* malloc(size_t); void free(void*); void abort(void) __attribute__((noreturn));
+void* malloc(size_t); void* calloc(size_t, size_t); void* realloc(void*, size_t); void free(void*); void abort(void) __attribute__((noreturn));
 void* bsearch(const void* key, const void* base, size_t n, size_t size, int (*cmp)(const void*, const void*));
+void qsort(void* base, size_t n, size_t size, int (*cmp)(const void*, const void*));
+int abs(int); long labs(long);
 #endif
